@@ -442,12 +442,42 @@ func (x *Exec) evalPseudo(name string, n *ast.CallExpr, st *State, env *Env) (Va
 		return x.eval(n.Args[0], env.old, env), true
 	case "count":
 		return x.evalCount(n, st, env), true
+	case "sum":
+		return x.evalSum(n, st, env), true
+	case "countzero", "countall":
+		// lemma instance (valid by induction on hi): a predicate false throughout [lo,hi) is counted 0 times;
+		// true throughout: hi-lo times. The instance is added to the assumptions; the call itself evaluates to true.
+		// Must not be used under a quantifier (its arguments would mention the bound variable).
+		cnt := x.evalCount(n, st, env)
+		vn := x.bindVar(n.Args[0])
+		lo := x.defaultType(x.eval(n.Args[1], st, env)).T
+		hi := x.defaultType(x.eval(n.Args[2], st, env)).T
+		bv := x.c.freshName(vn)
+		body := x.defaultType(x.eval(n.Args[3], st, env.with(vn, Val{T: bv, Ty: tInt}))).T
+		rng := and(app("<=", lo, bv), app("<", bv, hi))
+		if name == "countzero" {
+			x.c.assumes = append(x.c.assumes, implies(fmt.Sprintf("(forall ((%s Int)) %s)", bv, implies(rng, not(body))), eq(cnt.T, "0")))
+		} else {
+			x.c.assumes = append(x.c.assumes, implies(and(app("<=", lo, hi), fmt.Sprintf("(forall ((%s Int)) %s)", bv, implies(rng, body))), eq(cnt.T, sub(hi, lo))))
+		}
+		return Val{T: "true", Ty: tBool}, true
 	case "sent", "recv", "written":
 		h := x.eval(n.Args[0], st, env)
 		key := name + ":" + h.T
 		v, ok := st.gh[key]
 		if !ok {
 			panic(unsupported(name + "() of a handle without ghost state: " + exprString(n.Args[0])))
+		}
+		return v, true
+	case "lines", "linepos":
+		h := x.eval(n.Args[0], st, env)
+		key := "scan:" + x.c.resolveAlias(h.T)
+		if name == "linepos" {
+			key = "scanpos:" + x.c.resolveAlias(h.T)
+		}
+		v, ok := st.gh[key]
+		if !ok {
+			panic(unsupported(name + "() of something that is not a scanner"))
 		}
 		return v, true
 	case "recvpos":
@@ -492,6 +522,10 @@ func (x *Exec) evalPseudo(name string, n *ast.CallExpr, st *State, env *Env) (Va
 			base = env.old.alloc
 		}
 		return Val{T: app(">=", x.c.accessor("s.ref", a.T), base), Ty: tBool}, true
+	case "log":
+		v := x.defaultType(x.eval(n.Args[0], st, env))
+		val := x.c.accessor("f.val", v.T)
+		return Val{T: app("mkF64", or(x.c.accessor("f.nan", v.T), app("<", val, "0.0")), app("f.log", val)), Ty: tFloat}, true
 	case "isnan":
 		a := x.eval(n.Args[0], st, env)
 		return Val{T: x.c.accessor("f.nan", a.T), Ty: tBool}, true
@@ -698,4 +732,27 @@ func replaceSymbol(t, sym, by string) string {
 		i++
 	}
 	return b.String()
+}
+
+
+// sum(k, lo, hi, term): Σ term(k) for k in [lo,hi); one-step unfolding at the upper end plus additivity.
+func (x *Exec) evalSum(n *ast.CallExpr, st *State, env *Env) Val {
+	vn := x.bindVar(n.Args[0])
+	lo := x.defaultType(x.eval(n.Args[1], st, env)).T
+	hi := x.defaultType(x.eval(n.Args[2], st, env)).T
+	x.c.inContract++
+	key := x.defaultType(x.eval(n.Args[3], st, env.with(vn, Val{T: "$k", Ty: tInt}))).T
+	x.c.inContract--
+	fn, ok := x.c.cntDefs["sum:"+key]
+	if !ok {
+		fn = fmt.Sprintf("sum!%d", len(x.c.cntDefs))
+		x.c.cntDefs["sum:"+key] = fn
+		x.c.declare(fn, fmt.Sprintf("(declare-fun %s (Int Int) Int)", fn))
+		pstep := strings.ReplaceAll(key, "$k", "(- b 1)")
+		x.c.assumes = append(x.c.assumes,
+			fmt.Sprintf("(forall ((a Int) (b Int)) (! (=> (<= b a) (= (%s a b) 0)) :pattern ((%s a b))))", fn, fn),
+			fmt.Sprintf("(forall ((a Int) (b Int)) (! (=> (< a b) (= (%s a b) (+ (%s a (- b 1)) %s))) :pattern ((%s a b))))", fn, fn, pstep, fn),
+			fmt.Sprintf("(forall ((a Int) (b Int) (c Int)) (! (=> (and (<= a b) (<= b c)) (= (%s a c) (+ (%s a b) (%s b c)))) :pattern ((%s a b) (%s b c))))", fn, fn, fn, fn, fn))
+	}
+	return Val{T: app(fn, lo, hi), Ty: tInt}
 }
